@@ -827,6 +827,9 @@ impl Check for C10 {
     fn threads(&self) -> usize {
         12
     }
+    fn reexec_attempts(&self) -> usize {
+        6
+    }
     fn rule(&self) -> String {
         "case = a project (multi-file layouts of the C09 generator - successes; wild multi-file projects of the C04 grammar - mostly diagnostics; and a namespace-stress shape: `typeof <namespace import>` over a module with 4-14 exports, some unconvertible, optionally extended by export-star) compiled 6 times: twice in one process, then in 3 fresh OS processes (new hash seeds) of which two parse the files eagerly in shuffled registration orders, and once more lazily. Oracle: byte equality of emit_code() and of the serialized diagnostics across all runs. Non-trivial = >=2 files, or >=2 diagnostics, or >=8 hoisted values. Distinct = hash(project).".into()
     }
